@@ -1,4 +1,4 @@
-From Urwid Require Import TextLayout.
+From Urwid Require Import TextLayoutBytes.
 From Coq Require Extraction ExtrOcamlBasic.
 Extraction Language OCaml.
 Extraction "model.ml" run_case.
